@@ -77,7 +77,74 @@ def run_deep_move(spec):
     return {'viol': list(V), 'evals': V.evals, 'nontrivial': True, 'classes': ['deep_move'], 'summary': {}}
 
 
+def run_divide_override(spec):
+    """A _divide whose daughters carry explicit initial states naming variables below the first level of the
+    compartment (scalars and dictionary-valued variables): a daughter holds exactly what the update says for the
+    variables it names and the divided value of the mother for the others."""
+    from vivarium.core.store import Store
+    from vivarium.core.process import Process
+    V = Viol()
+    depth = spec['depth']
+    inner_path = ['box', 'inner', 'core'][:depth]
+
+    class Holder(Process):
+        def ports_schema(self):
+            return {'S': {'settings': {'_default': dict(spec['mother']), '_updater': 'set', '_divider': 'set'},
+                          'size': {'_default': 8, '_updater': 'set', '_divider': 'split'}}}
+
+        def next_update(self, timestep, states):
+            return {}
+    try:
+        root = Store({})
+        root.generate(('cells', 'm'), {'holder': Holder()}, {}, {}, {'holder': {'S': tuple(inner_path)}}, {})
+        root.apply_defaults()
+
+        def nest(v):
+            for k in reversed(inner_path):
+                v = {k: v}
+            return v
+        ds = []
+        for j, d in enumerate(('d0', 'd1')):
+            entry = {'key': d}
+            g = spec['given'][j]
+            if g is not None:
+                entry['initial_state'] = nest(copy.deepcopy(g))
+            ds.append(entry)
+        root.apply_update({'cells': {'_divide': {'mother': 'm', 'daughters': ds}}})
+        got = root.get_value()['cells']
+        V.check('divide_exact', sorted(got) == ['d0', 'd1'], lambda: ('after the division the store holds', sorted(got)))
+        for j, d in enumerate(('d0', 'd1')):
+            node = got.get(d, {})
+            for k in inner_path:
+                node = node.get(k, {}) if isinstance(node, dict) else {}
+            g = spec['given'][j] or {}
+            exp = {'settings': g['settings'] if 'settings' in g else dict(spec['mother']),
+                   'size': g['size'] if 'size' in g else 4}
+            seen = {k: node.get(k, 'MISSING') for k in exp} if isinstance(node, dict) else node
+            V.check('divide_exact', seen == exp,
+                    lambda: ('daughter %s of a division with the explicit initial state %r at depth %d (mother settings %r, size 8): '
+                             'expected %r, holds %r' % (d, spec['given'][j], depth, spec['mother'], exp, seen)))
+    except Exception as ex:
+        import traceback
+        V.check('divide_exact', False, ('division with explicit daughter states raised', type(ex).__name__, str(ex)[:200], traceback.format_exc()[-400:]))
+    return {'viol': list(V), 'evals': V.evals, 'nontrivial': any(g for g in spec['given']), 'classes': ['divide_override'], 'summary': {}}
+
+
 def gen(r, tier, i):
+    if i % 50 == 23:
+        mother = r.choice([{'size': 3, 'colour': 'red'}, {'a': 1}, {'a': {'b': 1}, 'c': 2}, {}])
+
+        def given():
+            k = r.random()
+            if k < 0.25:
+                return None
+            g = {}
+            if r.random() < 0.8:
+                g['settings'] = r.choice([{'colour': 'blue'}, {}, {'z': 9}, {'a': {'q': 5}}, {'size': 3, 'colour': 'red', 'w': 1}])
+            if r.random() < 0.4:
+                g['size'] = r.choice([0, 7, 100])
+            return g or None
+        return {'family': 'divide_override', 'depth': r.choice([1, 2, 2, 3]), 'mother': mother, 'given': [given(), given()]}
     if i % 250 == 17:
         return {'family': 'deep_move', 'ts': r.choice([0.5, 1.0]), 'at': r.choice([0.0, 1.0, 2.0]), 'run': r.choice([4.0, 5.0]),
                 'occupied': r.random() < 0.5}
@@ -174,6 +241,8 @@ def cell_shadow(key, n, deriver, tags=None):
 def run(spec):
     if spec.get('family') == 'deep_move':
         return run_deep_move(spec)
+    if spec.get('family') == 'divide_override':
+        return run_divide_override(spec)
     if spec.get('family') == 'engine':
         from vmon.checks import c10
         from vmon.util import harvest
